@@ -275,8 +275,28 @@ def run(cid, o, tier):
         us = instants_for(desc, r, ys, 14 if tier == "quick" else 60)
         # era boundaries of multi-era zones: the generic layer assumes a constant standard offset;
         # instants closer than 3 days to a change of the standard offset are kept out of this stream
+        # changes of the STANDARD offset of a multi-era iCalendar zone (finding F-C04/C05-tzical-std-change): only
+        # instants within |change| of such a change are taken out of the main comparison (they are probed by the
+        # sub-stream below and routed to the finding); everything further away is graded normally
+        prev_off = dict(desc.trans)
+        changes = []
         for b in getattr(desc, "era_boundaries", []):
-            us = [u for u in us if abs(u - b) > 3 * 86400]
+            before_b = [o2 for (t2, o2) in [(-10 ** 12, desc.init)] + desc.trans if t2 < b][-1]
+            # the generic layer reads the UTC fields as wall time: it misjudges the era up to the size of the
+            # offsets involved (measured: no failure beyond max(|old|, |new|, |change|))
+            changes.append((b, max(abs(before_b), abs(prev_off[b]), abs(prev_off[b] - before_b)), before_b, prev_off[b]))
+
+        def near_change(u):
+            for (b, ch, _old, _new) in changes:
+                if abs(u - b) <= ch:
+                    return (b, ch, _old, _new)
+            return None
+        for (b, ch, _o1, _o2) in changes:          # the band just outside the window is part of the main stream
+            for x in (-abs(ch) - 1, -abs(ch) - 1800, -abs(ch) - 3600, -2 * abs(ch) - 60, abs(ch) + 1, abs(ch) + 1800,
+                      abs(ch) + 3600, 2 * abs(ch) + 60, 86400, -86400, 2 * 86400, -2 * 86400):
+                if not desc.avoided(b + x):
+                    us.append(b + x)
+        us = sorted(set(u for u in us if near_change(u) is None))
         if not us:
             continue
         raw = desc.raw()
@@ -314,27 +334,30 @@ def run(cid, o, tier):
         # instants next to a change of the STANDARD offset (multi-era iCalendar zones, C04 only): the
         # generic layer assumes utcoffset - dst constant; failures there are the class of finding
         # F-C04-tzical-std-change and are reported with near_std_change = True
-        if cid == "C04":
-            eb = []
-            prevo = dict(desc.trans)
-            for b in getattr(desc, "era_boundaries", []):
-                before = [o2 for (t2, o2) in [(-10 ** 12, desc.init)] + desc.trans if t2 < b][-1]
-                dlt = abs(prevo[b] - before)
-                for x in (-dlt - 3600, -dlt, -dlt // 2, -1, 0, 1, dlt // 2, dlt - 1, dlt, dlt + 3600):
-                    if not desc.avoided(b + x):
-                        eb.append(b + x)
-            if eb:
-                spb = T.spec_utc(o, ref_bytes, eb)
-                for k2, u in enumerate(eb):
-                    n += 1
-                    im = T.impl_obs_utc(z, u, 0)
-                    off, loc, fold = spb[k2]
-                    if not T.is_ok(im) or im[0] != loc or im[2] != off or im[5] != u:
-                        bad.append({"zone": desc.name, "u": u, "near_std_change": True,
-                                    "why": "next to a change of the zone's standard offset: wall reading / utcoffset "
-                                           "are not those in force at the instant",
-                                    "impl": im, "expected": [off, loc, fold], "vtimezone": desc.text})
-                        break           # one per zone is enough
+        eb = []
+        for (b, ch, _o1, _o2) in changes:
+            d_ = abs(ch)
+            for x in (-d_, -d_ // 2, -1800, -1, 0, 1, 1800, d_ // 2, d_ - 1, d_):
+                if not desc.avoided(b + x) and near_change(b + x) is not None:
+                    eb.append(b + x)
+        eb = sorted(set(eb))
+        if eb:
+            spb = T.spec_utc(o, ref_bytes, eb)
+            reported = 0
+            for k2, u in enumerate(eb):
+                n += 1
+                im = T.impl_obs_utc(z, u, 0)
+                off, loc, fold = spb[k2]
+                impl_ok = bool(T.is_ok(im) and T.is_ok(im[2]) and T.is_ok(im[5]))
+                wrong = (not impl_ok) or im[0] != loc or im[2] != off or im[5] != u or (cid == "C05" and im[1] != fold)
+                if wrong and reported < 1:
+                    reported += 1
+                    b_, ch_, old_, new_ = near_change(u)
+                    bad.append({"zone": desc.name, "u": u, "near_std_change": True, "distance": u - b_,
+                                "old_offset": old_, "new_offset": new_, "impl_ok": impl_ok,
+                                "why": "next to a change of the zone's standard offset: wall reading / utcoffset / fold "
+                                       "are not those in force at the instant",
+                                "impl": im, "expected": [off, loc, fold], "vtimezone": desc.text})
         # second pass in another order through the SAME object: answers must not depend on history
         for u in sorted(us)[:: max(1, len(us) // 40)]:
             n += 1
@@ -346,7 +369,7 @@ def run(cid, o, tier):
             ws = set()
             for (u, o_, _w, fr, to, _d) in desc.tight:
                 y = (EPOCH + D.timedelta(seconds=u)).year
-                if y not in ys or desc.avoided(u) or any(abs(u - b) <= 3 * 86400 for b in getattr(desc, "era_boundaries", [])):
+                if y not in ys or desc.avoided(u) or near_change(u) is not None:
                     continue
                 a, b = u + min(fr, to), u + max(fr, to)
                 for x in (a, b):
